@@ -131,6 +131,26 @@ func execStep(w *world.World, s Step) bool {
 		w.SMPAbort(p)
 	case "FragSize":
 		w.SetFragSize(p, s.Z)
+	case "Recover":
+		// as a user would: while the two sides are not in one encrypted session, end and start over
+		for k := 0; k < 4; k++ {
+			a, b := w.P["A"], w.P["B"]
+			if a.Conv.IsEncrypted() && b.Conv.IsEncrypted() && a.Conv.GetSSID() == b.Conv.GetSSID() {
+				break
+			}
+			w.End(a)
+			drain(w, 8)
+			w.End(b)
+			drain(w, 8)
+			w.Tick(a)
+			w.Tick(b)
+			w.Query(a)
+			drain(w, 16)
+		}
+	case "FailRand":
+		// the read number I (counted from the creation of the conversation) of p's randomness
+		// source fails (short read if Q)
+		p.Rand.FailAt, p.Rand.Short = s.I, s.Q
 	case "Err":
 		w.InjectRaw(p, []byte("?OTR Error: peer could not read the message"))
 	case "Drop":
@@ -429,6 +449,66 @@ func genSchedule(rng *rand.Rand, family string, depth int) *Schedule {
 			}
 		}
 		return sc
+	case "randfail":
+		// a fixed scenario touching every call that draws randomness; read number k of one party
+		// fails; afterwards the conversation must still be usable (handshake, a text each way)
+		sc.Fam = "randfail"
+		sc.Pol["A"], sc.Pol["B"] = 3, 3
+		if rng.Intn(3) == 0 {
+			sc.Pol["A"], sc.Pol["B"] = 1, 1
+		}
+		sc.Frag = map[string]int{}
+		add(Step{A: "FailRand", P: ps[rng.Intn(2)], I: rng.Intn(depth), Q: rng.Intn(2) == 0})
+		add(Step{A: "Query", P: "A"})
+		for k := 0; k < 4; k++ {
+			add(Step{A: "Deliver", P: "B"})
+			add(Step{A: "Deliver", P: "A"})
+		}
+		for k := 0; k < 3; k++ {
+			text++
+			add(Step{A: "Send", P: "A", T: text})
+			add(Step{A: "Deliver", P: "B"})
+			text++
+			add(Step{A: "Send", P: "B", T: text})
+			add(Step{A: "Deliver", P: "A"})
+		}
+		add(Step{A: "SMPStart", P: "A", S: 5, Q: true})
+		add(Step{A: "Deliver", P: "B"})
+		add(Step{A: "SMPAnswer", P: "B", S: 5})
+		for k := 0; k < 3; k++ {
+			add(Step{A: "Deliver", P: "A"})
+			add(Step{A: "Deliver", P: "B"})
+		}
+		add(Step{A: "ExtraKey", P: "B"})
+		add(Step{A: "Deliver", P: "A"})
+		add(Step{A: "Tick", P: "A"})
+		add(Step{A: "Tick", P: "B"})
+		add(Step{A: "Query", P: "B"})
+		for k := 0; k < 4; k++ {
+			add(Step{A: "Deliver", P: "A"})
+			add(Step{A: "Deliver", P: "B"})
+		}
+		// probe: everything still works (the failure may have hit the last exchange above, or
+		// the first one below, hence two fresh starts)
+		for rounds := 0; rounds < 1; rounds++ {
+			add(Step{A: "End", P: "A"})
+			add(Step{A: "Deliver", P: "B"})
+			add(Step{A: "End", P: "B"})
+			add(Step{A: "Deliver", P: "A"})
+			add(Step{A: "Tick", P: "A"})
+			add(Step{A: "Tick", P: "B"})
+			add(Step{A: "Query", P: "A"})
+			for k := 0; k < 5; k++ {
+				add(Step{A: "Deliver", P: "B"})
+				add(Step{A: "Deliver", P: "A"})
+			}
+		}
+		add(Step{A: "Recover", P: "A"})
+		add(Step{A: "Send", P: "A", T: 9001})
+		add(Step{A: "Send", P: "B", T: 9002})
+		add(Step{A: "Deliver", P: "B"})
+		add(Step{A: "Deliver", P: "A"})
+		return sc
 	case "pingpong":
 		sc.Setup, sc.Fam = "ake", "fifo-data"
 		for d := 0; d < depth; d++ {
@@ -556,6 +636,8 @@ func run(cmd string, args []string) int {
 		return cmdFragCheck(args)
 	case "codeccheck":
 		return cmdCodecCheck(args)
+	case "parsefuzz":
+		return cmdParseFuzz(args)
 	}
 	fmt.Fprintln(os.Stderr, "unknown command", cmd)
 	return 2
